@@ -76,12 +76,12 @@ macro_rules! c03_beta {
         vproof! {
             #[kani::unwind(3)]
             fn $name() {
+                let mut rng = SymRng::new(2); // all symbolic inputs are drawn first (replay alignment)
                 let alpha: $f = kani::any();
                 let beta: $f = kani::any();
                 let d = match Beta::<$f>::new(alpha, beta) { Ok(d) => d, Err(_) => return };
                 kani::assume(alpha >= $min && alpha <= 1e4 && beta >= $min && beta <= 1e4);
                 // one Cheng BB / BC trial: two Open01 draws
-                let mut rng = SymRng::new(2);
                 let x: $f = d.sample(&mut rng);
                 vassert!(x == x, "Beta sample is NaN");
                 vassert!(x >= 0.0 && x <= 1.0, "Beta sample outside [0, 1]");
